@@ -130,4 +130,28 @@ theorem collectStats_append (xs ys : List Rat) :
     collectStats (xs ++ ys) = mergeStats (collectStats xs) (collectStats ys) := by
   rw [collectStats_eq_spec, collectStats_eq_spec, collectStats_eq_spec, mergeStats_spec]
 
+theorem mergeStats_comm_of_pos (a b : Stats) (ha : a.count ≠ 0) (hb : b.count ≠ 0) :
+    mergeStats a b = mergeStats b a := by
+  unfold mergeStats
+  simp only [ha, hb, if_false]
+  have hc : ((a.count + b.count : Nat) : Rat) = ((b.count + a.count : Nat) : Rat) := by
+    rw [Nat.add_comm]
+  congr 1
+  · omega
+  · grind
+  · grind
+  · grind
+  · rw [hc]; grind
+
+/-- on the states that can arise (statistics of value lists) `merge_stats` is commutative -/
+theorem mergeStats_comm_spec (xs ys : List Rat) :
+    mergeStats (specStats xs) (specStats ys) = mergeStats (specStats ys) (specStats xs) := by
+  cases xs with
+  | nil => cases ys <;> simp [mergeStats, specStats, Stats.zero]
+  | cons x xs =>
+    cases ys with
+    | nil => simp [mergeStats, specStats, Stats.zero]
+    | cons y ys =>
+      apply mergeStats_comm_of_pos <;> simp [specStats]
+
 end SL.Aggs
